@@ -71,7 +71,7 @@ theorem hReshape_safe {cfg : Config} {db : DB R} {mv : Nat} {invs : List (RpInvR
     rw [e2] at hrcid
     refine PlacedSafe.congr h3 ⟨rp, rc, i, hrp, ?_, hi, hi1, hi2, hfit.1, hfit.2.1, hfit.2.2.1,
       hfit.2.2.2, ?_⟩
-    · simpa only [DB.rcId, h2.2.2.2] using hrcid
+    · simpa only [DB.rcId, h2.2.2.2.1] using hrcid
     · apply not_overCommitted_of_fits
       intro j hj j1 j2
       exact (hall j hj j1 j2).2.2.2
